@@ -269,6 +269,9 @@ func reqKey(rq *Req) string {
 	if rq.Gone {
 		k += "|gone"
 	}
+	if rq.Plain {
+		k += "|plain"
+	}
 	for _, f := range rq.WFaults {
 		k += fmt.Sprintf("|%d:%d:%s", f.At, f.N, f.Err)
 	}
